@@ -895,6 +895,19 @@ impl<'a, W: Write> YamlSerializer<'a, W> {
         }
     }
 
+    /// Inside a flow collection an enum variant with a payload is the single-pair flow mapping
+    /// `{Variant: payload}`: write everything up to the payload.
+    fn write_flow_variant_start(&mut self, variant: &'static str) -> Result<()> {
+        self.write_scalar_prefix_if_anchor()?;
+        self.write_space_if_pending()?;
+        let text = scalar_key_to_string(variant, self.yaml_12)?;
+        self.out.write_str("{")?;
+        self.out.write_str(&text)?;
+        self.out.write_str(": ")?;
+        self.at_line_start = false;
+        Ok(())
+    }
+
     /// Temporarily mark that we are inside a flow container while running `f`.
     /// Ensures proper comma insertion and line handling for nested flow nodes.
     #[inline]
@@ -1406,6 +1419,12 @@ impl<'a, 'b, W: Write> Serializer for &'a mut YamlSerializer<'b, W> {
         // Emit the variant mapping on the next line indented one level. Also, do not insert
         // a space after the colon when the value may itself be a mapping; instead, defer
         // space insertion to the value serializer via pending_space_after_colon.
+        if self.in_flow > 0 {
+            self.write_flow_variant_start(variant)?;
+            self.with_in_flow(|s| value.serialize(s))?;
+            self.out.write_str("}")?;
+            return Ok(());
+        }
         let in_value_position = self.pending_space_after_colon;
         // A pending anchor belongs to the whole `Variant: value` mapping, not to the value: it is
         // written first and the mapping starts on the next line.
@@ -1594,6 +1613,17 @@ impl<'a, 'b, W: Write> Serializer for &'a mut YamlSerializer<'b, W> {
         variant: &'static str,
         _len: usize,
     ) -> Result<Self::SerializeTupleVariant> {
+        if self.in_flow > 0 {
+            // `{Variant: [a, b]}`
+            self.write_flow_variant_start(variant)?;
+            self.out.write_str("[")?;
+            return Ok(TupleVariantSer {
+                ser: self,
+                depth: 0,
+                flow: true,
+                first: true,
+            });
+        }
         // Same placement rules as for struct variants; the fields are then written as a block
         // sequence under the variant name.
         let in_value_position = self.pending_space_after_colon;
@@ -1628,6 +1658,7 @@ impl<'a, 'b, W: Write> Serializer for &'a mut YamlSerializer<'b, W> {
         Ok(TupleVariantSer {
             ser: self,
             depth: depth_next,
+            flow: false,
             first: true,
         })
     }
@@ -1753,6 +1784,17 @@ impl<'a, 'b, W: Write> Serializer for &'a mut YamlSerializer<'b, W> {
         // on the same line (e.g., "key: Variant:"). Move the variant mapping to the next line
         // indented under the parent mapping's base depth.
         let _was_inline_value = !self.at_line_start;
+        if self.in_flow > 0 {
+            // `{Variant: {a: 1, b: 2}}`
+            self.write_flow_variant_start(variant)?;
+            self.out.write_str("{")?;
+            return Ok(StructVariantSer {
+                ser: self,
+                depth: 0,
+                flow: true,
+                first: true,
+            });
+        }
         let in_value_position = self.pending_space_after_colon;
         // A pending anchor belongs to the whole variant mapping: it is written first and the
         // mapping starts on the next line.
@@ -1772,6 +1814,8 @@ impl<'a, 'b, W: Write> Serializer for &'a mut YamlSerializer<'b, W> {
             return Ok(StructVariantSer {
                 ser: self,
                 depth: depth_next,
+                flow: false,
+                first: true,
             });
         }
         // Otherwise (top-level or sequence context), emit the variant name at current depth.
@@ -1795,6 +1839,8 @@ impl<'a, 'b, W: Write> Serializer for &'a mut YamlSerializer<'b, W> {
         Ok(StructVariantSer {
             ser: self,
             depth: depth_next,
+            flow: false,
+            first: true,
         })
     }
 }
@@ -2185,6 +2231,8 @@ pub struct TupleVariantSer<'a, 'b, W: Write> {
     ser: &'a mut YamlSerializer<'b, W>,
     /// Target indentation depth for the fields.
     depth: usize,
+    /// Whether the variant is written in flow style (`{Variant: [a, b]}`).
+    flow: bool,
     /// Whether the next field is the first.
     first: bool,
 }
@@ -2194,7 +2242,7 @@ impl<'b, W: Write> TupleVariantSer<'_, 'b, W> {
         SeqSer {
             ser: &mut *self.ser,
             depth: self.depth,
-            flow: false,
+            flow: self.flow,
             first: self.first,
             after_anchor: false,
         }
@@ -2210,7 +2258,11 @@ impl<'a, 'b, W: Write> SerializeTupleVariant for TupleVariantSer<'a, 'b, W> {
         Ok(())
     }
     fn end(mut self) -> Result<()> {
-        SerializeSeq::end(self.as_seq())
+        SerializeSeq::end(self.as_seq())?;
+        if self.flow {
+            self.ser.out.write_str("}")?;
+        }
+        Ok(())
     }
 }
 
@@ -2463,6 +2515,10 @@ pub struct StructVariantSer<'a, 'b, W: Write> {
     ser: &'a mut YamlSerializer<'b, W>,
     /// Target indentation depth for the fields.
     depth: usize,
+    /// Whether the variant is written in flow style (`{Variant: {a: 1}}`).
+    flow: bool,
+    /// Whether the next field is the first (comma handling in flow style).
+    first: bool,
 }
 impl<'a, 'b, W: Write> SerializeStructVariant for StructVariantSer<'a, 'b, W> {
     type Ok = ();
@@ -2474,6 +2530,15 @@ impl<'a, 'b, W: Write> SerializeStructVariant for StructVariantSer<'a, 'b, W> {
         value: &T,
     ) -> Result<()> {
         let text = scalar_key_to_string(&key, self.ser.yaml_12)?;
+        if self.flow {
+            if !self.first {
+                self.ser.out.write_str(", ")?;
+            }
+            self.first = false;
+            self.ser.out.write_str(&text)?;
+            self.ser.out.write_str(": ")?;
+            return self.ser.with_in_flow(|s| value.serialize(s));
+        }
         self.ser.write_indent(self.depth)?;
         let prev_parent_col = self.ser.block_parent_col.replace(self.ser.out.col);
         self.ser.out.write_str(&text)?;
@@ -2489,6 +2554,9 @@ impl<'a, 'b, W: Write> SerializeStructVariant for StructVariantSer<'a, 'b, W> {
         result
     }
     fn end(self) -> Result<()> {
+        if self.flow {
+            self.ser.out.write_str("}}")?;
+        }
         Ok(())
     }
 }
